@@ -8,6 +8,7 @@
    "read then back" would move backwards.  Bad offsets are unreachable: the only parser loop
    that consumes a '\r' (df_read_path_loop) always ends with an [sc_back], and [sc_back]
    never lands on a bad offset. *)
+From Coq Require Import String.
 From N2 Require Import Model.All.
 
 Lemma match13 (x : option N) (a b : nat) :
@@ -97,16 +98,17 @@ Section Safe.
     - destruct o as [|o1].
       + eexists. split; [reflexivity|]. cbn. split; [reflexivity|]. split; [|left; reflexivity].
         intros o1 Eo; discriminate Eo.
-      + destruct (nth_error buf o1) as [x|] eqn:E1.
-        * destruct (N.eq_dec x 13) as [->|Hx].
-          -- eexists. split; [reflexivity|]. cbn. split; [reflexivity|]. split.
-             ++ intros o2 _ E2. rewrite E1 in E2. discriminate E2.
-             ++ right. auto.
-          -- rewrite match13 by congruence.
-             eexists. split; [reflexivity|]. cbn. split; [reflexivity|]. split; [|left; reflexivity].
-             intros o2 Eo _. injection Eo as <-. rewrite E1. congruence.
-        * eexists. split; [reflexivity|]. cbn. split; [reflexivity|]. split; [|left; reflexivity].
-          intros o2 Eo _. injection Eo as <-. rewrite E1. congruence.
+      + assert (D : nth_error buf o1 = Some 13%N \/ nth_error buf o1 <> Some 13%N).
+        { destruct (nth_error buf o1) as [x|]; [|right; discriminate].
+          destruct (N.eq_dec x 13); [left; congruence | right; congruence]. }
+        destruct D as [E1|E1].
+        * rewrite E1.
+          eexists. split; [reflexivity|]. cbn. split; [reflexivity|]. split.
+          -- intros o2 _ E2. rewrite E1 in E2. discriminate E2.
+          -- right. auto.
+        * rewrite match13 by exact E1.
+          eexists. split; [reflexivity|]. cbn. split; [reflexivity|]. split; [|left; reflexivity].
+          intros o2 Eo _. injection Eo as <-. exact E1.
     - eexists. split; [reflexivity|]. cbn. split; [reflexivity|]. split; [|left; reflexivity].
       intros o1 _ E1. rewrite E in E1. congruence.
   Qed.
@@ -264,4 +266,153 @@ Section Safe.
     - destruct (back_one s1 (sofs s) Hb1 Ho1 Ho Hnb) as (s' & Eb & Hst & Hs').
       rewrite Eb. cbn [sbind]. unfold sc_parse_error. cbn. lia.
   Qed.
+
+  Lemma read_deps_safe f : forall s acc,
+    st s -> length buf + 1 <= f + sofs s -> good (sofs s) (df_read_deps f s acc).
+  Proof.
+    induction f as [|f IH]; intros s acc Hst Hf; [destruct Hst as (_ & Ho & _); lia|].
+    cbn [df_read_deps].
+    assert (H1 : goodp (sofs s) (df_read_path f s)) by (apply read_path_safe; [exact Hst | lia]).
+    destruct (df_read_path f s) as [v s1|m o| | |]; cbn in H1; try contradiction; cbn [sbind];
+      [|exact H1].
+    destruct H1 as (Hst1 & Hle1 & Hprog).
+    destruct v as [p|].
+    - assert (Hlt : sofs s < sofs s1) by (apply Hprog; discriminate).
+      apply good_le with (q := sofs s1); [lia|]. apply IH; [exact Hst1 | lia].
+    - cbn. auto.
+  Qed.
+
+  Definition final {A} (r : sres A) : Prop :=
+    match r with
+    | SOk _ _ => True
+    | SErr _ o => o <= length buf
+    | _ => False
+    end.
+
+  Lemma parse_loop_safe fixed f : forall s acc,
+    st s -> length buf + 3 <= f + sofs s -> final (df_parse_loop fixed f s acc).
+  Proof.
+    induction f as [|f IH]; intros s acc Hst Hf; [destruct Hst as (_ & Ho & _); lia|].
+    cbn [df_parse_loop].
+    assert (H1 : good (sofs s) (df_skip_blank f s)) by (apply skip_blank_safe; [exact Hst | lia]).
+    destruct (df_skip_blank f s) as [u1 s1|m o| | |]; cbn in H1; try contradiction; cbn [sbind];
+      [|exact H1].
+    destruct H1 as (Hst1 & Hle1).
+    assert (H2 : goodp (sofs s1) (df_read_path f s1)) by (apply read_path_safe; [exact Hst1 | lia]).
+    destruct (df_read_path f s1) as [v s2|m o| | |]; cbn in H2; try contradiction; cbn [sbind];
+      [|exact H2].
+    destruct H2 as (Hst2 & Hle2 & Hprog).
+    destruct v as [target|].
+    - assert (Hlt : sofs s1 < sofs s2) by (apply Hprog; discriminate).
+      assert (H3 : good (sofs s2) (sc_skip_spaces f s2)) by (apply sc_skip_spaces_safe; [exact Hst2 | lia]).
+      destruct (sc_skip_spaces f s2) as [u3 s3|m o| | |]; cbn in H3; try contradiction; cbn [sbind];
+        [|exact H3].
+      destruct H3 as (Hst3 & Hle3).
+      assert (H4 : good (sofs s3)
+                        (match strip_colon target with
+                         | Some t' => SOk t' s3
+                         | None => sdo (_, s) <- sc_expect 58%N s3; SOk target s
+                         end)).
+      { destruct (strip_colon target) as [t'|].
+        - cbn. auto.
+        - pose proof (expect_safe 58%N s3 Hst3) as H4.
+          destruct (sc_expect 58%N s3) as [u4 s4|m o| | |]; cbn in H4; try contradiction; cbn [sbind];
+            [|exact H4].
+          cbn. apply H4; discriminate. }
+      destruct (match strip_colon target with
+                | Some t' => SOk t' s3
+                | None => sdo (_, s) <- sc_expect 58%N s3; SOk target s
+                end) as [t4 s4|m o| | |]; cbn in H4; try contradiction; cbn [sbind]; [|exact H4].
+      destruct H4 as (Hst4 & Hle4).
+      assert (H5 : good (sofs s4) (df_read_deps f s4 [])) by (apply read_deps_safe; [exact Hst4 | lia]).
+      destruct (df_read_deps f s4 []) as [deps s5|m o| | |]; cbn in H5; try contradiction; cbn [sbind];
+        [|exact H5].
+      destruct H5 as (Hst5 & Hle5).
+      apply IH; [exact Hst5 | lia].
+    - pose proof (expect_safe 0%N s2 Hst2) as H3.
+      destruct (sc_expect 0%N s2) as [u3 s3|m o| | |]; cbn in H3; try contradiction; cbn [sbind];
+        [exact I | exact H3].
+  Qed.
 End Safe.
+
+(* ------------------------------------------------------------------------------------ *)
+(* format_parse_error (fixed variant) finds a line for every offset inside the buffer *)
+
+Definition lines_len (lines : list bytes) : nat :=
+  fold_right (fun line n => length line + 1 + n) 0 lines.
+
+Lemma split_on_len sep : forall l cur,
+  lines_len (split_on sep cur l) = length cur + length l + 1.
+Proof.
+  induction l as [|c r IH]; intros cur; cbn [split_on].
+  - cbn. rewrite rev_length. lia.
+  - destruct (c =? sep)%N.
+    + cbn [lines_len fold_right]. change (fold_right _ 0 ?x) with (lines_len x).
+      rewrite IH, rev_length. cbn. lia.
+    + rewrite IH. cbn. lia.
+Qed.
+
+Lemma fpe_lines_ok filename msg eofs : forall lines ln ofs,
+  ofs <= eofs -> eofs + 1 <= ofs + lines_len lines ->
+  exists txt, fpe_lines true filename msg eofs lines ln ofs = Ok txt.
+Proof.
+  induction lines as [|line rest IH]; intros ln ofs Hlo Hhi.
+  - cbn in Hhi. lia.
+  - cbn [fpe_lines].
+    destruct (Nat.leb_spec eofs (ofs + length line)) as [Hfound|Hnot].
+    + destruct (Nat.ltb_spec eofs ofs) as [Hbad|_]; [lia|].
+      destruct (40 <? eofs - ofs)%nat; cbn [bind];
+        match goal with |- context[if (40 <? length ?c)%nat then _ else _] =>
+                        destruct (40 <? length c)%nat end; cbn [bind]; eexists; reflexivity.
+    + apply IH; [lia|]. cbn [lines_len fold_right] in Hhi. change (fold_right _ 0 ?x) with (lines_len x) in Hhi.
+      lia.
+Qed.
+
+Lemma format_parse_error_ok buf filename msg eofs :
+  eofs <= length buf -> exists txt, format_parse_error buf filename msg eofs = Ok txt.
+Proof.
+  intro H. unfold format_parse_error, format_parse_error_gen.
+  apply fpe_lines_ok; [lia|]. rewrite split_on_len. cbn. lia.
+Qed.
+
+(* ------------------------------------------------------------------------------------ *)
+
+Lemma nul_terminated (t : bytes) : nth_error (t ++ [0%N]) (pred (length (t ++ [0%N]))) = Some 0%N.
+Proof.
+  rewrite app_length. cbn [length]. replace (pred (length t + 1)) with (length t) by lia.
+  rewrite nth_error_app2 by lia. rewrite Nat.sub_diag. reflexivity.
+Qed.
+
+Lemma sc_new_nul (t : bytes) : sc_new (t ++ [0%N]) = Ok (mkScanner (t ++ [0%N]) 0 1).
+Proof. unfold sc_new. rewrite rev_app_distr. reflexivity. Qed.
+
+Lemma st_initial (t : bytes) : st (t ++ [0%N]) (mkScanner (t ++ [0%N]) 0 1).
+Proof.
+  split; [reflexivity|]. cbn [sofs]. split.
+  - rewrite app_length. cbn. lia.
+  - intros o1 E. discriminate E.
+Qed.
+
+(* the raw parse loop never ends in Panic / OutOfBounds / OutOfFuel *)
+Lemma parse_loop_final fixed (t : bytes) :
+  final (t ++ [0%N]) (df_parse_loop fixed (df_fuel t) (mkScanner (t ++ [0%N]) 0 1) []).
+Proof.
+  apply parse_loop_safe; [apply nul_terminated | apply st_initial|].
+  unfold df_fuel. rewrite app_length. cbn. lia.
+Qed.
+
+Lemma depfile_parse_gen_total fixed t :
+  (exists m, depfile_parse_gen fixed t = Ok m) \/ (exists e, depfile_parse_gen fixed t = Err e).
+Proof.
+  unfold depfile_parse_gen. rewrite sc_new_nul. cbn [bind].
+  pose proof (parse_loop_final fixed t) as H.
+  destruct (df_parse_loop fixed (df_fuel t) _ []) as [m s'|m o| | |]; cbn in H; try contradiction.
+  - left. exists m. reflexivity.
+  - right. cbn [finish_sres].
+    destruct (format_parse_error_ok (t ++ [0%N]) (bs "d") m o H) as (txt & E).
+    rewrite E. exists txt. reflexivity.
+Qed.
+
+Lemma depfile_total t :
+  (exists m, depfile_parse t = Ok m) \/ (exists e, depfile_parse t = Err e).
+Proof. apply depfile_parse_gen_total. Qed.
